@@ -243,6 +243,8 @@ func c08(c *Ctx) {
 	if c.readerWrappers("C08.error-identity") < 4 {
 		r.Fail("C08.error-identity", "package", "floor", c.fn("(*joinReader).Read").Pos(), "fewer than the 4 known reader wrappers were analysed")
 	}
+	r.Rule("C08.early-frames", "control frames that arrive together with the handshake, and control frames of every legal size later on, reach their handlers: the connection keeps the reader it was built with (same rules as C17.client-reader, C17.reader-stable)")
+	c.borrow(c17, map[string]string{"C17.client-reader": "C08.early-frames", "C17.reader-stable": "C08.early-frames"})
 	r.Rule("C08.reply-private", "the pong / close reply is assembled by WriteControl in memory private to the call: nothing reachable from the Conn is written before Conn.mu is held, so a concurrent WriteControl cannot overwrite the reply (same rule as C11.timeout-paths)")
 	newTransport(c).noSharedBeforeLock("C08.reply-private")
 }
